@@ -83,7 +83,7 @@ int rp_run (FILE *sched, const struct rp_harness *h, struct rp_stats *st, const 
 	while (getline (&line, &cap, sched) > 0) {
 		if (line[0] == 'T') {
 			char *init = line + 1;
-			if (st->violations >= 60) break;      /* enough failing behaviours (a livelock makes each of them slow) */
+			if (st->violations >= 60 || rt_watchdog_hits >= 3) break;      /* enough failing behaviours (a livelock makes each of them slow) */
 			while (*init == ' ') init++;
 			tour_id = strtol (init, &init, 10);
 			while (*init == ' ') init++;
@@ -193,7 +193,7 @@ long rp_explore_from (FILE *sched, const struct rp_harness *h, long runs, unsign
 		else if (line[0] == 'E') break;
 	}
 	free (line);
-	for (r = 0; r < runs && viols < 3; r++) {      /* three failing continuations are enough (a livelock makes every run slow) */
+	for (r = 0; r < runs && viols < 3 && rt_watchdog_hits < 3; r++) {      /* three failing continuations are enough (a livelock makes every run slow) */
 		char *out = NULL; size_t ol = 0; FILE *of = open_memstream (&out, &ol);
 		int i; long n = 0;
 		char why[256];
